@@ -51,6 +51,17 @@ Theorem C17_write_progress_partial :
       s_writing s' = None /\ qs_log (s_q s') = qs_log q ++ wb_view data.
 Proof. exact write_progress. Qed.
 
+(* SendStreamUnframed::poll_send (raw bytes, used by WebTransport) with no framed write pending: a prefix of
+   the caller's buffer is handed to Quinn and the buffer advanced by exactly the reported count *)
+Theorem C17_poll_send_exact_partial :
+  forall o buf s r s' buf' o', s_writing s = None ->
+    poll_send o buf s = (r, s', buf', o') ->
+    qs_log (s_q s') ++ wb_view buf' = qs_log (s_q s) ++ wb_view buf /\
+    s_writing s' = None /\ qs_id (s_q s') = qs_id (s_q s) /\
+    poll_not_panic r /\
+    (forall k, r = Ready (Ok k) -> len (wb_view buf') + k = len (wb_view buf)).
+Proof. exact poll_send_exact. Qed.
+
 (* an overlapping send_data is refused (InternalError) and changes nothing: no interleaving *)
 Theorem C17_overlapping_send_refused :
   forall b d s, s_writing s = Some d -> send_data b s = (Err (HConnErr HInternalError), s).
@@ -199,6 +210,7 @@ Print Assumptions C17_write_exact_partial.
 Print Assumptions C17_write_complete_partial.
 Print Assumptions C17_poll_ready_any_split_partial.
 Print Assumptions C17_write_progress_partial.
+Print Assumptions C17_poll_send_exact_partial.
 Print Assumptions C17_overlapping_send_refused.
 Print Assumptions C17_send_id_constant.
 Print Assumptions C17_recv_program_partial.
